@@ -21,6 +21,16 @@ pub open spec fn total(cs: Seq<Seq<u8>>) -> nat
 {
     if cs.len() == 0 { 0 } else { total(cs.drop_last()) + cs.last().len() }
 }
+/// concatenation of chunks: what a buffered extractor hands to the handler
+pub open spec fn concat_all(cs: Seq<Seq<u8>>) -> Seq<u8>
+    decreases cs.len()
+{
+    if cs.len() == 0 { Seq::empty() } else { concat_all(cs.drop_last()) + cs.last() }
+}
+/// C11: "the effective limit is its own override or else the server default"
+pub open spec fn effective_limit<C: ServerContext>(rqctx: RequestContext<C>) -> usize {
+    match rqctx.endpoint.request_body_max_bytes { Some(x) => x, None => rqctx.server.config.default_request_body_max_bytes }
+}
 /// what a streaming consumer has observed: the chunks yielded so far
 pub open spec fn yielded(out: Seq<Bytes>) -> Seq<Seq<u8>> { out.map_values(|b: Bytes| b.data@) }
 
